@@ -106,9 +106,9 @@ def run(ctx):
     rng = random.Random(ctx.seed)
     # --- design level: the pinned (pre-fix) machine must show the crash, the repaired one must not
     pinned = core.run_tlc(ctx, "MC_Parser", "MC_Parser_pinned.cfg", env={"CASES_OUT": ctx.path("pinned.txt")})
-    cfgs = ["MC_Parser_full3.cfg", "MC_Parser_core4.cfg", "MC_Parser_ctx_brk.cfg"] if ctx.quick else \
+    cfgs = ["MC_Parser_full3.cfg", "MC_Parser_core4.cfg", "MC_Parser_ctx_brk.cfg", "MC_Parser_ctx_kwgap.cfg"] if ctx.quick else \
            ["MC_Parser_full4.cfg", "MC_Parser_core6.cfg"] + ["MC_Parser_ctx_%s.cfg" % c for c in
-                                                             ("brk", "col", "srch", "kw", "quo", "rex", "sl")]
+                                                             ("brk", "col", "srch", "kw", "kwgap", "quo", "rex", "sl")]
     cases = []
     for cfg in cfgs:
         f = ctx.path(cfg + ".cases")
